@@ -503,11 +503,17 @@ def fuzz(tier, seed):
                     b = bytearray(data)
                     b[off : off + 4] = (2**31 + 1).to_bytes(4, "little")
                     variants.append(("u32@%d=2^31+1" % off, bytes(b)))
+            timeouts = 0
             for vname, d in variants:
+                if timeouts >= 2:
+                    # the violation is established for this format: do not spend 10 s on each of
+                    # the remaining inputs of the same kind (the check itself must terminate)
+                    break
                 for by_path in (False, True) if (vname.startswith("truncated") and hash(vname) % 4 == 0) or not vname.startswith("truncated") else (False,):
                     cases += 1
                     outcome, dt, leaked = _one_case(ft, d, by_path, tmpdir, 10.0)
                     if outcome == "TIMEOUT":
+                        timeouts += 1
                         fail("%s:does-not-finish-within-10s" % name, name, vname)
                     elif outcome.startswith("NON-ORDINARY"):
                         fail("%s:%s" % (name, outcome), name, vname)
